@@ -60,6 +60,8 @@ type State struct {
 	qfDone    map[[2]*Term]bool
 	trail     []int // blocks of the root function visited (trace mode only)
 	events    *Term // ghost event sequence (sort Evs), nil if untracked
+	aux       interface{} // driver-owned path-local data (treated as immutable: replace, never mutate)
+	epoch     int         // number of unframed whole-memory havocs so far
 }
 
 func NewState() *State {
@@ -79,6 +81,8 @@ func (s *State) Clone() *State {
 	n.allocs = s.allocs
 	n.trail = s.trail
 	n.events = s.events
+	n.aux = s.aux
+	n.epoch = s.epoch
 	if s.qf != nil {
 		n.qf = make(map[*Term][]*qfact, len(s.qf))
 		for k, v := range s.qf {
@@ -237,6 +241,10 @@ func (s *State) Mem(srt string) *Term {
 		return m
 	}
 	m := Leaf("M0_"+sortKey(srt), SArr(SLoc, srt))
+	if s.epoch > 0 {
+		// first touched after an unframed havoc: nothing is known about it
+		m = Fresh("Mh_late_"+sortKey(srt), SArr(SLoc, srt))
+	}
 	s.mem[k] = m
 	return m
 }
@@ -260,6 +268,9 @@ func (s *State) MapHas(ks string) *Term {
 		return m
 	}
 	m := Leaf("MH0_"+sortKey(ks), SArr(SLoc, SArr(ks, SBool)))
+	if s.epoch > 0 {
+		m = Fresh("MHh_late_"+sortKey(ks), SArr(SLoc, SArr(ks, SBool)))
+	}
 	s.mem[k] = m
 	return m
 }
@@ -269,6 +280,9 @@ func (s *State) MapVal(ks string, j int, vs string) *Term {
 		return m
 	}
 	m := Leaf(fmt.Sprintf("MV0_%s_%d_%s", sortKey(ks), j, sortKey(vs)), SArr(SLoc, SArr(ks, vs)))
+	if s.epoch > 0 {
+		m = Fresh(fmt.Sprintf("MVh_late_%s_%d_%s", sortKey(ks), j, sortKey(vs)), SArr(SLoc, SArr(ks, vs)))
+	}
 	s.mem[k] = m
 	return m
 }
@@ -276,6 +290,9 @@ func (s *State) MapVal(ks string, j int, vs string) *Term {
 // HavocMem replaces every memory array (optionally only those whose key
 // passes keep) by a fresh constant.
 func (s *State) HavocMem(filter func(key string) bool) {
+	if filter == nil {
+		s.epoch++
+	}
 	var keys []string
 	for k := range s.mem {
 		keys = append(keys, k)
@@ -346,6 +363,8 @@ type loopSnapshot struct {
 	spec    *LoopSpec
 	ord     string
 	labelTerm *Term // label-by expression evaluated at the loop head
+	head       *State
+	headLookup func(string) *Value
 	allocs0 *Term
 	preLookup func(string) *Value
 }
